@@ -620,3 +620,122 @@ Definition field_table_n : list (list N * list N * lclass) :=
 Definition site_ok_n := site_ok_g (list N) codes_eqb fun_table_n field_table_n.
 Definition call_ok_n := call_ok_g (list N) codes_eqb fun_table_n.
 Definition spawn_ok_n := spawn_ok_g (list N) codes_eqb fun_table_n.
+
+(* ================================================================ Part 5: sites by goroutine CLASS
+   The per-function table above names every function.  An extract-method refactoring adds a function the
+   table does not know, although nothing changed.  The tie therefore classifies a site by the goroutine
+   class(es) that can REACH its function: the roots (what a `go` statement starts, the closures sent to the
+   manager, the API entry points, the two method values handed to newConnection) have a class by the table
+   [root_table]; a static call (also: a deferred or immediately invoked function literal, a function literal
+   passed as an argument or stored in a variable) runs in its caller's goroutine.  A site is acceptable iff
+   its function is reached by exactly ONE class and the model performs (class, location, role).  Still
+   breaking the tie: a function with a site reached by two classes, a `go` statement or a closure sent on a
+   channel whose target is not a root or whose classes are not in [spawn_table], a (class, field, role) the
+   model does not perform, a variable captured by a closure that runs in another goroutine (a root
+   closure) unless [cap_table] allows it. *)
+Definition root_table : list (string * gclass) :=
+  [ ("New", GMain); ("GoJT808.Run", GMain); ("connection.Start", GMain);
+    ("sessionManager.run", GMgr); ("sessionManager.join$1", GMgr); ("sessionManager.leave$1", GMgr);
+    ("sessionManager.write$1", GMgr);
+    ("connection.reader", GReader); ("sessionManager.join", GReader); ("sessionManager.leave", GReader);
+    ("connection.write", GWriter);
+    ("connection.onActiveEvent$1", GTimer);
+    ("GoJT808.SendActiveMessage", GCaller) ].
+
+(* what a closure that runs in another goroutine (a root closure) may capture from the function that creates
+   it.  Variables are classified by what they are, not by their names: a channel is a synchronisation object
+   (always fine); a number / string / bool shares nothing but its value (fine when the closure only reads it
+   and the creating function does not write it once the closure exists: the value is handed over by the
+   `go` / the channel send); through anything else (pointer, map, slice, interface, func, struct) memory is
+   shared, and only the hand-overs the model knows are allowed:
+   (class of the closure, type of the variable, may the closure write it / take its address) *)
+Definition cap_table : list (gclass * string * bool) :=
+  [ (GTimer, "*connection", false);        (* the receiver: its fields are judged site by site *)
+    (GMgr, "*ActiveMessage", false);       (* write closure: LAct i travels with KWrite i *)
+    (GMgr, "jt808.Header", true) ].        (* join closure: the session's own header copy travels with KJoin *)
+
+Definition root_table_n : list (list N * gclass) :=
+  Eval vm_compute in map (fun p => (nm (fst p), snd p)) root_table.
+Definition cap_table_n : list (gclass * list N * bool) :=
+  Eval vm_compute in map (fun p => (fst (fst p), nm (snd (fst p)), snd p)) cap_table.
+
+Inductive ckind := CKChan | CKBasic | CKRef.
+
+Inductive ekind := KCall | KSpawn | KSendLit.
+Record gedge := { e_kind : ekind; e_from : list N; e_to : list N }.
+Record gsite := { s_fun : list N; s_type : list N; s_field : list N; s_write : bool }.
+Record gcap := { c_fun : list N; c_kind : ckind; c_type : list N; c_write : bool; c_imm : bool }.
+
+Definition cmap := list (list N * list gclass).
+
+Fixpoint cm_get (f : list N) (m : cmap) : list gclass :=
+  match m with [] => [] | (n, cs) :: r => if codes_eqb n f then cs else cm_get f r end.
+
+Definition has_class (g : gclass) (cs : list gclass) : bool := existsb (gclass_eqb g) cs.
+
+Fixpoint cm_add (f : list N) (g : gclass) (m : cmap) : cmap :=
+  match m with
+  | [] => [(f, [g])]
+  | (n, cs) :: r => if codes_eqb n f then (n, if has_class g cs then cs else g :: cs) :: r else (n, cs) :: cm_add f g r
+  end.
+
+Definition cm_add_all (f : list N) (gs : list gclass) (m : cmap) : cmap := fold_left (fun acc g => cm_add f g acc) gs m.
+
+(* one round: every call edge hands the caller's classes to the callee *)
+Definition cm_round (es : list gedge) (m : cmap) : cmap :=
+  fold_left (fun acc e => match e_kind e with KCall => cm_add_all (e_to e) (cm_get (e_from e) acc) acc | _ => acc end) es m.
+
+Fixpoint cm_iter (n : nat) (es : list gedge) (m : cmap) : cmap :=
+  match n with O => m | S k => cm_iter k es (cm_round es m) end.
+
+Definition classes_of (es : list gedge) : cmap :=
+  cm_iter (S (List.length es)) es (map (fun p => (fst p, [snd p])) root_table_n).
+
+Inductive problem :=
+| PSiteNoClass (s : gsite)          (* the function is not reached from any root *)
+| PSiteTwoClasses (s : gsite)       (* ... is reached by two goroutine classes *)
+| PSiteUnknownField (s : gsite)
+| PSiteNotPerformed (s : gsite)     (* the model has no such (class, location, role) access *)
+| PSpawn (e : gedge)                (* go / closure sent on a channel: unknown target or classes not allowed *)
+| PCapture (c : gcap).              (* a closure running in another goroutine captures a variable the tables do not allow *)
+
+Definition check_site (m : cmap) (s : gsite) : list problem :=
+  match cm_get (s_fun s) m with
+  | [] => [PSiteNoClass s]
+  | [g] => match lookup_field codes_eqb (s_type s) (s_field s) field_table_n with
+           | None => [PSiteUnknownField s]
+           | Some x => if performs g x (s_write s) then [] else [PSiteNotPerformed s]
+           end
+  | _ => [PSiteTwoClasses s]
+  end.
+
+Definition check_edge (m : cmap) (e : gedge) : list problem :=
+  match e_kind e with
+  | KCall => []
+  | KSpawn =>
+      match lookup_fun codes_eqb (e_to e) root_table_n, cm_get (e_from e) m with
+      | Some b, (_ :: _) as froms =>
+          if forallb (fun a => existsb (fun p => gclass_eqb (fst p) a && gclass_eqb (snd p) b) spawn_table) froms
+          then [] else [PSpawn e]
+      | _, _ => [PSpawn e]
+      end
+  | KSendLit =>
+      match lookup_fun codes_eqb (e_to e) root_table_n with Some _ => [] | None => [PSpawn e] end
+  end.
+
+Definition check_cap (c : gcap) : list problem :=
+  match lookup_fun codes_eqb (c_fun c) root_table_n with
+  | None => [PCapture c]
+  | Some g =>
+      match c_kind c with
+      | CKChan => []
+      | CKBasic => if negb (c_write c) && c_imm c then [] else [PCapture c]
+      | CKRef =>
+          if existsb (fun p => match p with (g', t, w) => gclass_eqb g' g && codes_eqb t (c_type c) && (w || negb (c_write c)) end) cap_table_n
+          then [] else [PCapture c]
+      end
+  end.
+
+Definition graph_problems (es : list gedge) (ss : list gsite) (cs : list gcap) : list problem :=
+  let m := classes_of es in
+  flat_map (check_edge m) es ++ flat_map (check_site m) ss ++ flat_map check_cap cs.
